@@ -297,7 +297,7 @@ def step (d : DState) (l : Line) : DState × List Verdict :=
       let specBelow := headD (d.spec.drop 1) {}
       let wf : Bool :=
         if d.rescan then true
-        else if isApply then h == d.stack.length + 1 && wfApply specHead ch
+        else if isApply then h == d.stack.length + 1 && wfApplyR specHead ch
         else match d.stack with
           | (h', ch') :: _ => h == h' && wfRevert specBelow ch' ch
           | [] => false
